@@ -341,8 +341,11 @@ def run(ctx):
             if mo[i] == 'FUEL':
                 fuel += 1
             ip = impl_parse[c]
-            if ip.startswith('EXC:RecursionError'):
-                continue          # judged by the oracle below (known finding: recursion limit)
+            if ip.startswith('DEPTH') and max_nesting(c) >= 60:
+                # rejected at the interpreter's recursion limit with a located error (judged by the oracle below);
+                # the model has no such resource bound
+                ctx.cov['rejected_at_recursion_limit'] = ctx.cov.get('rejected_at_recursion_limit', 0) + 1
+                continue
             if ip != mo[i]:
                 if len(ctx.disagreements) < 100:
                     ctx.disagreements.append({'fn': 'parse', 'code': c, 'implementation': ip[:300], 'model': mo[i][:300]})
